@@ -107,6 +107,9 @@ def ensure_gen(force=False):
         rc, o2, e2 = sh(['python3', ROOT + '/tools/gen_serde.py', CACHE + '/expanded.rs', GEN + '/structs.json', GEN + '/Gen_Serde.v'], 120)
         if rc != 0:
             raise InfraError('serde table extraction failed: ' + e2[-1500:])
+        rc, o3, e3 = sh(['python3', ROOT + '/tools/gen_bessel.py'], 120)
+        if rc != 0:
+            raise InfraError('bessel table extraction failed: ' + (e3 or o3)[-1500:])
         mkproject()
         open(stamp, 'w').write(h)
         log('generated model from /repo (%s) in %.1fs' % (h, time.time() - t))
